@@ -24,7 +24,12 @@ ASSUMPTIONS = [
     "and the encoders any value below 256^l; the bijection is on [0, 256^l) which contains [0, n-1]",
     "sigdecode_der ignores the order; uniqueness of the accepted DER encoding is checked with a strict reference parser "
     "(SEQUENCE, definite minimal length, exactly two minimal non-negative INTEGERs, nothing after)",
-    "decoder inputs are bytes objects (normalise_bytes makes a memoryview of them)",
+    "bytes-like inputs: sigdecode_string / sigdecode_strings / sigdecode_der go through _compat.normalise_bytes "
+    "(memoryview(x).cast('B')), so every C-contiguous buffer is read by its underlying bytes whatever its item size: bytes, "
+    "bytearray, memoryview (also sliced, of bytearray), casts 'b' 'H' 'I' 'Q', array.array 'B' 'b' 'H' 'I' and views of them "
+    "are all driven (correspondence stream `containers`, search classes container-*), including buffers whose ITEM count is "
+    "2l / l but whose byte length is not. A NON-contiguous memoryview (x[::2]) makes normalise_bytes raise TypeError on the "
+    "unchanged tree (memoryview.cast needs a C-contiguous view): outside the documented 'bytes like object', not driven",
 ]
 
 SIG_ALPHA = [0x30, 0x02, 0x00, 0x01, 0x03, 0x04, 0x7F, 0x80, 0x81, 0xFF]
@@ -302,6 +307,58 @@ def pair(t):
     return "%d %d" % (t[0], t[1])
 
 
+# ------------------------------------------------------------------------------------------------
+# bytes-like containers: the decoders document "bytes like object" and go through _compat.normalise_bytes
+# (memoryview(x).cast("B")), so every C-contiguous buffer must be read by its UNDERLYING BYTES whatever its item size
+def _mv_cast(fmt):
+    import struct
+    size = struct.calcsize(fmt)
+    return lambda b: memoryview(b).cast(fmt) if len(b) % size == 0 else None
+
+
+def _arr(code):
+    from array import array
+    size = array(code).itemsize
+    return lambda b: array(code, b) if len(b) % size == 0 else None
+
+
+def _mv_arr(code):
+    f = _arr(code)
+    return lambda b: memoryview(f(b)) if f(b) is not None else None
+
+
+CONTAINERS = [
+    ("bytearray", bytearray), ("memoryview", memoryview),
+    ("memoryview-slice", lambda b: memoryview(b"\xee" + b + b"\xdd\xcc")[1:1 + len(b)]),
+    ("memoryview(bytearray)", lambda b: memoryview(bytearray(b))),
+    ("cast-b", _mv_cast("b")), ("cast-H", _mv_cast("H")), ("cast-I", _mv_cast("I")), ("cast-Q", _mv_cast("Q")),
+    ("array-B", _arr("B")), ("array-b", _arr("b")), ("array-H", _arr("H")), ("array-I", _arr("I")),
+    ("memoryview(array-H)", _mv_arr("H")), ("memoryview(array-I)", _mv_arr("I")),
+]
+CONTAINER = dict(CONTAINERS)
+
+
+def wrapped(b, k):
+    """the k-th container that can hold these bytes (cycling), as (name, object)"""
+    for j in range(len(CONTAINERS)):
+        name, f = CONTAINERS[(k + j) % len(CONTAINERS)]
+        o = f(b)
+        if o is not None:
+            return name, o
+    return "bytearray", bytearray(b)
+
+
+def item_count_traps(rng, l):
+    """buffers whose ITEM count is 2l (or l) but whose byte length is not: must be refused"""
+    out = []
+    for fmt, size in (("H", 2), ("I", 4)):
+        for items in (2 * l, l):
+            b = rbytes(rng, items * size)
+            out.append(("cast-" + fmt, b))
+            out.append(("memoryview(array-%s)" % fmt, b))
+    return out
+
+
 def correspond(ctx):
     from ecdsa import util
     rng = ctx.rng
@@ -343,6 +400,47 @@ def correspond(ctx):
         for xs in strings_inputs(ctx, n):
             tag = "count=%d" % len(xs) if len(xs) != 2 else ("lens=l,l" if len(xs[0]) == l == len(xs[1]) else "lens!=l")
             c.add("sigdecode_strings %d%s" % (n, "".join(" " + hx(x) for x in xs)), lambda: pair(util.sigdecode_strings(xs, n)), tag)
+    c.run()
+
+    # the same decoders driven with bytes-like CONTAINERS of the same underlying bytes (the model line is the bytes)
+    c = Corr(ctx, "containers")
+    k = 0
+    for name, n in ords:
+        l = olen(n)
+        ins = raw_decoder_inputs(ctx, n)
+        good = [x for x in ins if len(x) == 2 * l][:3]
+        for x in good:
+            for cname, f in CONTAINERS:
+                o = f(x)
+                if o is not None:
+                    c.add("sigdecode_string %s %d" % (hx(x), n), lambda: pair(util.sigdecode_string(o, n)), cname)
+        for x in ins:
+            k += 1
+            cname, o = wrapped(x, k)
+            c.add("sigdecode_string %s %d" % (hx(x), n), lambda: pair(util.sigdecode_string(o, n)), cname)
+        for cname, x in item_count_traps(rng, l):
+            o = CONTAINER[cname](x)
+            c.add("sigdecode_string %s %d" % (hx(x), n), lambda: pair(util.sigdecode_string(o, n)), "trap-" + cname)
+            if len(x) % 2 == 0:
+                h = len(x) // 2
+                os_ = [CONTAINER[cname](x[:h]), CONTAINER[cname](x[h:])]
+                if None not in os_:
+                    c.add("sigdecode_strings %d %s %s" % (n, hx(x[:h]), hx(x[h:])), lambda: pair(util.sigdecode_strings(os_, n)), "trap-" + cname)
+        for xs in strings_inputs(ctx, n):
+            k += 1
+            ws = [wrapped(x, k + i) for i, x in enumerate(xs)]
+            c.add("sigdecode_strings %d%s" % (n, "".join(" " + hx(x) for x in xs)), lambda: pair(util.sigdecode_strings([w[1] for w in ws], n)),
+                  "+".join(sorted({w[0] for w in ws})) or "none")
+        for (r, s) in pairs(ctx, n)[:6]:
+            x = R_sig(r, s)
+            for cname, f in CONTAINERS:
+                o = f(x)
+                if o is not None:
+                    c.add("sigdecode_der %s %d" % (hx(x), n), lambda: pair(util.sigdecode_der(o, n)), cname)
+    for cls, x, n in der_stream(ctx):
+        k += 1
+        cname, o = wrapped(x, k)
+        c.add("sigdecode_der %s %d" % (hx(x), n), lambda: pair(util.sigdecode_der(o, n)), cname)
     c.run()
 
     c = Corr(ctx, "sigdecode_der")
@@ -401,11 +499,11 @@ def check_pair(util, r, s, n):
     return None
 
 
-def check_raw(util, x, n):
-    """sigdecode_string at an arbitrary byte string"""
+def check_raw(util, x, n, cont=None):
+    """sigdecode_string at an arbitrary byte string (handed over in the container `cont`; the oracle reads the bytes)"""
     l = olen(n)
     try:
-        got = tuple(util.sigdecode_string(x, n))
+        got = tuple(util.sigdecode_string(CONTAINER[cont](x) if cont else x, n))
     except util.MalformedSignature:
         return None if len(x) != 2 * l else {"observed": "MalformedSignature", "expected": "accepted (length is 2*%d)" % l}
     except Exception as e:  # noqa
@@ -424,11 +522,11 @@ def check_raw(util, x, n):
     return None
 
 
-def check_strings(util, xs, n):
+def check_strings(util, xs, n, conts=None):
     l = olen(n)
     ok = len(xs) == 2 and len(xs[0]) == l and len(xs[1]) == l
     try:
-        got = tuple(util.sigdecode_strings(list(xs), n))
+        got = tuple(util.sigdecode_strings([CONTAINER[c](x) for c, x in zip(conts, xs)] if conts else list(xs), n))
     except util.MalformedSignature:
         return None if not ok else {"observed": "MalformedSignature", "expected": "accepted"}
     except Exception as e:  # noqa
@@ -448,11 +546,11 @@ def check_strings(util, xs, n):
     return None
 
 
-def check_der(util, x, n):
+def check_der(util, x, n, cont=None):
     from ecdsa.der import UnexpectedDER
     want = ref_sig(x)
     try:
-        got = tuple(util.sigdecode_der(x, n))
+        got = tuple(util.sigdecode_der(CONTAINER[cont](x) if cont else x, n))
     except UnexpectedDER:
         return None if want is None else {"observed": "UnexpectedDER", "expected": "accepted " + short(want)}
     except Exception as e:  # noqa
@@ -506,6 +604,48 @@ def search(ctx):
             if bad and rep({"op": "sigdecode_strings", "strings": [x.hex() for x in xs], "order": n, "order_name": name}, bad):
                 return done()
     ctx.hist("search", "sigdecode_strings", n_eval - k)
+    # bytes-like containers (same oracle, on the underlying bytes)
+    k = n_eval
+    j = 0
+    for name, n in ords:
+        l = olen(n)
+        ins = raw_decoder_inputs(ctx, n)
+        cases = [(cname, x) for x in [y for y in ins if len(y) == 2 * l][:2] for cname, f in CONTAINERS if f(x) is not None]
+        for x in ins:
+            j += 1
+            cases.append((wrapped(x, j)[0], x))
+        cases += item_count_traps(ctx.rng, l)
+        for cname, x in cases:
+            n_eval += 1
+            ctx.hist("search", "container-" + cname)
+            bad = check_raw(util, x, n, cname)
+            if bad and rep({"op": "sigdecode_string", "data": x.hex(), "order": n, "order_name": name, "container": cname}, bad):
+                return done()
+            if len(x) % 2 == 0 and CONTAINER[cname](x[:len(x) // 2]) is not None:
+                h = len(x) // 2
+                n_eval += 1
+                bad = check_strings(util, [x[:h], x[h:]], n, [cname, cname])
+                if bad and rep({"op": "sigdecode_strings", "strings": [x[:h].hex(), x[h:].hex()], "order": n, "order_name": name,
+                                "containers": [cname, cname]}, bad):
+                    return done()
+        for (r, s) in pairs(ctx, n)[:4]:
+            x = R_sig(r, s)
+            for cname, f in CONTAINERS:
+                if f(x) is None:
+                    continue
+                n_eval += 1
+                ctx.hist("search", "container-" + cname)
+                bad = check_der(util, x, n, cname)
+                if bad and rep({"op": "sigdecode_der", "data": x.hex(), "order": n, "container": cname}, bad):
+                    return done()
+    for cls, x, n in der_stream(ctx):
+        j += 1
+        cname = wrapped(x, j)[0]
+        n_eval += 1
+        bad = check_der(util, x, n, cname)
+        if bad and rep({"op": "sigdecode_der", "data": x.hex(), "order": n, "container": cname}, bad):
+            return done()
+    ctx.hist("search", "containers", n_eval - k)
     n = ords[0][1]
     for cls, x in der_exhaustive(ctx):
         n_eval += 1
@@ -529,7 +669,7 @@ def replay(rec):
     if i["op"] == "pair":
         return check_pair(util, i["r"], i["s"], n) is not None
     if i["op"] == "sigdecode_string":
-        return check_raw(util, bytes.fromhex(i["data"]), n) is not None
+        return check_raw(util, bytes.fromhex(i["data"]), n, i.get("container")) is not None
     if i["op"] == "sigdecode_strings":
-        return check_strings(util, [bytes.fromhex(x) for x in i["strings"]], n) is not None
-    return check_der(util, bytes.fromhex(i["data"]), n) is not None
+        return check_strings(util, [bytes.fromhex(x) for x in i["strings"]], n, i.get("containers")) is not None
+    return check_der(util, bytes.fromhex(i["data"]), n, i.get("container")) is not None
